@@ -58,7 +58,7 @@ def run(ctx):
     except TM.Refuse as e:
         ctx.obligation("translate_machines", False, f"translator refused: {e}")
         tr_ok = False
-    ok, out = ctx.build(["proofs/PrefixMachine.vo", "proofs/PrefixTrees.vo", "proofs/PrefixChart.vo", "proofs/NormProofs.vo", "proofs/MaskStringsProofs.vo"]) if tr_ok else (False, "translator")
+    ok, out = ctx.build(["proofs/PrefixMachine.vo", "proofs/PrefixTrees.vo", "proofs/PrefixChart.vo", "proofs/NormProofs.vo", "proofs/MaskStringsProofs.vo", "proofs/MaskEosProofs.vo"]) if tr_ok else (False, "translator")
     if ok:
         ctx.prove("props/C01.v")
     else:
